@@ -91,6 +91,7 @@ func (r *Runner) execChmap(a []string) string {
 		return "STALE"
 	}
 	r.chmapOracle(e, me.m, scale, res, resx)
+	r.chmapIndependence(e, me.m, scale)
 	return "ok"
 }
 
@@ -213,4 +214,65 @@ func closeFBins(x, y string) bool {
 		}
 	}
 	return true
+}
+
+// chmapIndependence (C14, C10): the result of ChangeMapping and its source do not share state —
+// mutating either afterwards leaves every observable aspect of the other as it was. Done on
+// copies, so the history's own sketches are untouched.
+func (r *Runner) chmapIndependence(e *skEntry, m2 mapping.IndexMapping, scale float64) {
+	mk := func() *skEntry {
+		c := &skEntry{mh: e.mh, storeKind: e.storeKind, n: e.n}
+		if e.exact != nil {
+			c.exact = e.exact.Copy()
+		} else {
+			c.plain = e.plain.Copy()
+		}
+		return c
+	}
+	mutate := func(x *skEntry) {
+		v := 1.5
+		if x.exact != nil {
+			x.exact.AddWithCount(v, 3)
+			x.exact.AddWithCount(-v, 2)
+			x.exact.Reweight(2)
+		} else {
+			x.plain.AddWithCount(v, 3)
+			x.plain.AddWithCount(-v, 2)
+			x.plain.Reweight(2)
+		}
+	}
+	clear := func(x *skEntry) {
+		if x.exact != nil {
+			x.exact.Clear()
+		} else {
+			x.plain.Clear()
+		}
+	}
+	for _, dir := range []string{"result-mutated", "source-mutated"} {
+		src := mk()
+		// dense target stores: their observations are deterministic (a sparse store sums its
+		// non-dyadic weights in map order, which differs from call to call)
+		res, resx := doChangeMapping(src, m2, scale, "dense", 0)
+		dst := &skEntry{plain: res, exact: resx, storeKind: "dense", mh: -1}
+		if scale == 1 && src.sk().IndexMapping.Equals(m2) {
+			dst.storeKind = src.storeKind // the identity shortcut returns a copy with the source's stores
+		}
+		if resx != nil {
+			dst.plain = nil
+		}
+		victim, actor := src, dst
+		if dir == "source-mutated" {
+			victim, actor = dst, src
+		}
+		before := r.sketchObsQuiet(victim)
+		mutate(actor)
+		if after := r.sketchObsQuiet(victim); after != before {
+			r.oracleFail("chmap-aliasing", fmt.Sprintf("%s (scale %v): the other sketch changed: before[%s] after[%s]", dir, scale, before, after))
+			continue
+		}
+		clear(actor)
+		if after := r.sketchObsQuiet(victim); after != before {
+			r.oracleFail("chmap-aliasing", fmt.Sprintf("%s then cleared (scale %v): the other sketch changed: before[%s] after[%s]", dir, scale, before, after))
+		}
+	}
 }
